@@ -84,6 +84,29 @@ pub fn check(c: &OntCase, stats: &mut Stats) -> CheckResult {
 /// (see `bulk_facts`), every term compared with the reference model.
 pub fn check_bulk(n: u32, mult: u32, path: PathSel, stats: &mut Stats) -> CheckResult {
     let f = bulk_facts(n, mult, 0);
+    let r = check_big(&f, n, path, stats);
+    if r.is_ok() {
+        stats.label("bulk>65535-terms");
+        stats.count("bulk_terms", u64::from(n));
+    }
+    r
+}
+
+/// The same comparison on a deep ontology (see `deep_facts`): is_a chains longer than 255 / 4096 links.
+pub fn check_deep(depth: u32, mult: u32, path: PathSel, stats: &mut Stats) -> CheckResult {
+    let f = deep_facts(depth, mult, 0);
+    let r = check_big(&f, depth, path, stats);
+    if r.is_ok() {
+        stats.label("depth>255");
+        if depth > 4096 {
+            stats.label("depth>4096");
+        }
+    }
+    r
+}
+
+fn check_big(f: &Facts, n: u32, path: PathSel, stats: &mut Stats) -> CheckResult {
+    let f = f.clone();
     let ont = match build_path(&f, path, &Default::default()) {
         Ok(o) => o,
         Err(e) => return fail(format!("construct/{}/bulk", path.name()), format!("{n} terms: {e}")),
@@ -122,8 +145,6 @@ pub fn check_bulk(n: u32, mult: u32, path: PathSel, stats: &mut Stats) -> CheckR
         Ok(r) => r?,
         Err(p) => return fail(format!("closure/{pn}/bulk/panic"), p),
     }
-    stats.label("bulk>65535-terms");
-    stats.count("bulk_terms", u64::from(n));
     Ok(())
 }
 
@@ -132,7 +153,7 @@ impl Property for C01 {
         "C01"
     }
     fn rule(&self) -> String {
-        "Generated: acyclic is_a graphs (random / chain / diamond ladder / fan / chain+shortcut shapes, 0-3 parents per node, several roots, detached nodes), injective id assignment (dense, sparse, borders), shuffled supply order, pushed through one construction path (Builder minimal/defaults, own v1/v2/v3 encoder -> from_bytes, as_bytes round trip, rendered JAX files -> from_standard / from_standard_transitive; sub_ontology results are covered by C14 with the same closure oracle). Oracle: BFS transitive closure on the facts; parents, children (exact inverse), all_parents (nothing missing/extra, never self), resolving iterators equal id accessors, child_of/parent_of for ALL ordered pairs. Deterministic sub-sweep (both tiers): ontologies of 65 536 - 131 100 terms (every node k has the parents k/2 and k/3, ids scattered, deepest terms supplied first) through the Builder and the binary loader, every term's parents / children / all_parents compared with the model, child_of / parent_of on a stride of pairs. evaluations = ordered pairs checked. Non-trivial = some node has >=2 parents sharing an ancestor AND depth >= 3; distinct = hash(canonical facts, path).".into()
+        "Generated: acyclic is_a graphs (random / chain / diamond ladder / fan / chain+shortcut shapes, 0-3 parents per node, several roots, detached nodes), injective id assignment (dense, sparse, borders), shuffled supply order, pushed through one construction path (Builder minimal/defaults, own v1/v2/v3 encoder -> from_bytes, as_bytes round trip, rendered JAX files -> from_standard / from_standard_transitive; sub_ontology results are covered by C14 with the same closure oracle). Oracle: BFS transitive closure on the facts; parents, children (exact inverse), all_parents (nothing missing/extra, never self), resolving iterators equal id accessors, child_of/parent_of for ALL ordered pairs. Deterministic sub-sweep (both tiers): ontologies of 65 536 - 131 100 terms (every node k has the parents k/2 and k/3, ids scattered, deepest terms supplied first) through the Builder and the binary loader, every term's parents / children / all_parents compared with the model, child_of / parent_of on a stride of pairs; the same on is_a chains of 300 - 20 000 links (with redundant shortcuts and side leaves). evaluations = ordered pairs checked. Non-trivial = some node has >=2 parents sharing an ancestor AND depth >= 3; distinct = hash(canonical facts, path).".into()
     }
     fn assumptions(&self) -> Vec<String> {
         vec![
@@ -148,7 +169,7 @@ impl Property for C01 {
         }
     }
     fn required_labels(&self, _tier: Tier) -> Vec<&'static str> {
-        vec!["nontrivial", "ancestors>30", "parents>30", "children>30", "many-parents-few-ancestors", "records>255", "diamond", "multiroot", "detached", "id0", "id9999999", "bulk>65535-terms"]
+        vec!["nontrivial", "ancestors>30", "parents>30", "children>30", "many-parents-few-ancestors", "records>255", "diamond", "multiroot", "detached", "id0", "id9999999", "bulk>65535-terms", "depth>255", "depth>4096"]
     }
     fn run_generated(&self, tier: Tier, seed: u64, n: u64, stats: &mut Stats) -> Option<(Value, Failure)> {
         let max = if tier == Tier::Quick { 72 } else { 130 };
@@ -159,6 +180,11 @@ impl Property for C01 {
             let v: (u32, u32, PathSel) = serde_json::from_value(b.clone()).map_err(|e| e.to_string())?;
             stats.cases += 1;
             return Ok(check_bulk(v.0, v.1, v.2, stats));
+        }
+        if let Some(b) = case.get("deep") {
+            let v: (u32, u32, PathSel) = serde_json::from_value(b.clone()).map_err(|e| e.to_string())?;
+            stats.cases += 1;
+            return Ok(check_deep(v.0, v.1, v.2, stats));
         }
         replay_typed::<OntCase, _>(case, stats, check)
     }
@@ -171,6 +197,15 @@ impl Property for C01 {
             plans.push((66_000, mult, PathSel::BuilderDefaults));
             plans.push((65_536, mult, PathSel::Bin(1)));
         }
-        plans.into_iter().map(|p| json!({"bulk": p})).collect()
+        let mut out: Vec<Value> = plans.into_iter().map(|p| json!({"bulk": p})).collect();
+        // is_a chains deeper than an 8-bit / 12-bit counter
+        let mut deep = vec![(300u32, mult, PathSel::Builder), (5000, mult, PathSel::Bin(3))];
+        if tier == Tier::Thorough {
+            deep.push((1100, mult, PathSel::RoundTrip));
+            deep.push((300, mult, PathSel::Jax));
+            deep.push((20_000, mult, PathSel::Bin(2)));
+        }
+        out.extend(deep.into_iter().map(|p| json!({"deep": p})));
+        out
     }
 }
